@@ -267,6 +267,11 @@ func run(c *runner.Ctx) {
 			}
 			src, n := mkFile([]inject.FieldVariant{f, g}, (i+j)%2 == 0)
 			repeat(c, src, f.Shape+"+"+g.Shape, n, false, 4)
+			if (i+j)%5 == 2 { // CRLF line endings / byte-order mark
+				crlf := bytes.ReplaceAll(src, []byte("\n"), []byte("\r\n"))
+				repeat(c, crlf, f.Shape+"+"+g.Shape+" [CRLF]", n, false, 3)
+				repeat(c, append([]byte("\xef\xbb\xbf"), crlf...), f.Shape+"+"+g.Shape+" [BOM+CRLF]", n, false, 3)
+			}
 			c.Done(n > 0, 0)
 			c.Sample(func() interface{} { return f.Shape + "+" + g.Shape + " x4 (library)" })
 		}
